@@ -35,6 +35,8 @@ static nni_taskq *nni_taskq_systq = NULL;
 // When it is zero, and the caller itself schedules nothing, the library is
 // quiescent.  See /verif/DESIGN.md, hook H2q.
 nni_atomic_int nni_verif_inflight;
+// Verification hook H5 (add-only): see defs.h
+void (*nng_verif_delay_hook)(int, void *) = NULL;
 int
 nng_verif_inflight(void)
 {
